@@ -37,4 +37,11 @@ contract ScrapeStatus.UpdateScrapeResult
   modifies ScrapeStatus.lastSeries at {t}, ScrapeStatus.Series at {t}, ScrapeStatus.TotalSeries at {t}, ScrapeStatus.LastScrapeStatistics at {t}, elems(ScrapeStatus.lastSeries) at {}
   loop 1 invariant idx1 <= 3
   loop 1 invariant (idx1 == 0 ==> total == 0) && (idx1 == 1 ==> total == t.lastSeries[0]) && (idx1 == 2 ==> total == t.lastSeries[0] + t.lastSeries[1]) && (idx1 == 3 ==> total == t.lastSeries[0] + t.lastSeries[1] + t.lastSeries[2])
+
+// (assumed) the request URL rebuilt from the shipped labels and the job's params: string/url.Values territory; only
+// "a fresh URL object" is known about it
+contract Target.URL
+  requires t != nil && cfg != nil
+  ensures result != nil && fresh(result)
+  modifies net/url.URL.* at {}
 @*/
